@@ -17,6 +17,14 @@ def _bad(kind, enc):
         'bad-icc': e('1240') + bm([55]) + e('001') + b'\x9f',
         'short-header': e('1240') + b'\x00\x01',
         'trailing-byte': e('1240') + bm([3]) + e('0000001'),
+        'pds-leftover-1': e('1240') + bm([48]) + e('0090001001YZ'),
+        'pds-leftover-3': e('1240') + bm([48]) + e('0110001001Y015'),
+        'pds-leftover-6': e('1240') + bm([48]) + e('0140001001Y015800'),
+        'pds-value-overrun': e('1240') + bm([48]) + e('0090001009AB'),
+        'negative-length': e('1240') + bm([2]) + e('-112345'),
+        'length-past-end': e('1240') + bm([2]) + e('0912345'),
+        'fixed-field-short': e('1240') + bm([3]) + e('00000'),
+        'bad-date': e('1240') + bm([12]) + e('991332256199'),
     }[kind]
 
 
